@@ -679,8 +679,11 @@ impl Lexer<'_> {
                         }
                     }
                 }
-                LexerMode::StringExpr { .. } => {
-                    // This may happen if we have unbalanced `"` or `'` as the last character
+                LexerMode::StringExpr { allow_stat } => {
+                    // This may happen if we have unbalanced `"` or `'` as the last character.
+                    // The handler pops the string expression mode itself, so put the mode
+                    // we've just popped back first, otherwise the mode below it is lost
+                    self.push_mode(LexerMode::StringExpr { allow_stat });
                     self.handle_unterminated_str_expr(Payload::None);
                 }
                 LexerMode::MacroNameExpr(_, err) => {
